@@ -213,9 +213,50 @@ Theorem C15_numbering_wrap : forall F data u ps s f,
 Proof. exact flight_stall_16. Qed.
 Print Assumptions C15_numbering_wrap.
 
+From Iodine Require Import ServerExamples.
+
+(* ---- the letter of "numbered consecutively from 0" ---------------------------------------------------- *)
+(* C15_numbering_emit says: wire number = (number of acks ACCEPTED for this packet) mod 16.  The stronger
+   reading "the first fragment a client ever sees of a packet is numbered 0" is refuted -- of the model
+   and, identically, of the real iodined (corpus/C15/premature-ack-first-fragment-numbered-1.cases):
+   process_downstream_ack also accepts an ack that names the current fragment before that fragment was
+   ever emitted (sentlen = 0).  The offset does not move, no data is lost, the numbers stay consecutive
+   and the last flag correct, but the emitted numbers start at 1.  [flight] covers this case (fl_ack_hit
+   with sentlen 0 appends an empty piece), so the theorems above hold unconditionally. *)
+Theorem C15_numbering_from_zero_refuted :
+  exists F data u ps w u' o ag pktb,
+    flight F data u ps /\ u_fragsize u = F /\ u_resent u <= 5 /\ p_offset (u_out u) = 0 /\ concat ps = [] /\
+    send_chunk_or_dataless u w = (u', o, ag) /\ hd (ORaw addr0 []) o = OAnswer (getq u w) 0 addr0 pktb 0 /\
+    (nth 1 pktb 0 / 2) mod 16 = 1 /\ skipn 2 pktb = firstn 10 data.
+Proof.
+  pose (data := map N.of_nat (seq 100 31)).
+  pose (u0 := (user_init 0) <| u_fragsize := 10 |>).
+  exists 10, data, (process_downstream_ack (start_new_outpacket u0 data) 1 0), [[]], WQ.
+  destruct (send_chunk_or_dataless (process_downstream_ack (start_new_outpacket u0 data) 1 0) WQ) as [[u' o] ag] eqn:E.
+  exists u', o, ag. eexists.
+  split.
+  { apply (fl_ack_hit 10 data (start_new_outpacket u0 data) [] 1%Z 0%Z).
+    - apply fl_start; [discriminate|vm_compute; lia].
+    - lia.
+    - vm_compute. reflexivity.
+    - vm_compute. reflexivity. }
+  split; [vm_compute; reflexivity|]. split; [vm_compute; discriminate|]. split; [vm_compute; reflexivity|].
+  split; [reflexivity|]. split; [reflexivity|].
+  vm_compute in E. inversion E. subst o. cbn [hd]. split; [reflexivity|]. split; vm_compute; reflexivity.
+Qed.
+Print Assumptions C15_numbering_from_zero_refuted.
+
+(* the same on a whole history: V, L, N=10, a 30-byte packet, then a ping whose ack byte names (seq 1,
+   frag 0): the four fragments go out with numbers 1,2,3,4 (last), and still tile the packet *)
+Example C15_example_premature_ack :
+  map (fun k => map (fun d => (N.of_nat (length d) - 2, (nth 1 d 0 / 2) mod 16, nth 1 d 0 mod 2)) (ex2_payloads k)) [4; 5; 6; 7]%nat
+    = [[(10, 1, 0)]; [(10, 2, 0)]; [(10, 3, 0)]; [(1, 4, 1)]] /\
+  flat_map (fun k => skipn 2 (hd [] (ex2_payloads k))) [4; 5; 6; 7]%nat
+    = 90 :: map N.of_nat (seq 100 20) ++ [10; 0; 0; 2] ++ map N.of_nat (seq 124 6).
+Proof. vm_compute. split; reflexivity. Qed.
+
 (* ---- non-vacuity: the history of ServerExamples.v (V, L, N=1, N=10, a 30-byte tun packet, pings that
    acknowledge fragment after fragment, ..., N=5) ------------------------------------------------------ *)
-From Iodine Require Import ServerExamples.
 
 (* N=1 is answered BADFRAG and changes nothing; N=10 is accepted *)
 Example C15_example_reject :
